@@ -1116,6 +1116,42 @@ def p_stage_orders(kind_i, m, n, n_inputs, flags):
             for name, b in stages:
                 if others[name].serialize() != b:
                     return f"{kind} {m}-of-{n}: combine modified the PSBT ('{name}') that was passed as its argument"
+            # the FINALISED PSBT as one more stage: whoever is the accumulator and whatever the order, once the
+            # finalised PSBT has been combined in, the result (serialised and parsed again, as the next role
+            # would receive it) extracts the same final transaction
+            if final is not None:
+                fin_obj = reparse(fb)
+                for ai, (aname, ab) in enumerate(stages):
+                    rest = [nm for nm, _ in stages[:ai] + stages[ai + 1:]]
+                    for order in ([["finalised"] + rest, rest + ["finalised"], ["finalised"]]):
+                        acc = reparse(ab)
+                        for oname in order:
+                            acc.combine(fin_obj if oname == "finalised" else others[oname])
+                        try:
+                            with contextlib.redirect_stdout(io.StringIO()):
+                                got_tx = reparse(acc.serialize()).final_tx().serialize()
+                        except Exception as e:  # noqa
+                            return (f"{kind} {m}-of-{n}, signers {sub}: accumulator '{aname}' combined with {order}: "
+                                    f"final_tx() fails ({type(e).__name__}: {str(e)[:80]}) although the finalised "
+                                    f"PSBT was combined in")
+                        if got_tx != final:
+                            return (f"{kind} {m}-of-{n}, signers {sub}: accumulator '{aname}' combined with {order} "
+                                    f"extracts ANOTHER final transaction than the finalised PSBT")
+                for order in (["bare"], [nm for nm, _ in stages], [nm for nm, _ in reversed(stages)]):
+                    acc = reparse(fb)
+                    for oname in order:
+                        acc.combine(others[oname])
+                    try:
+                        with contextlib.redirect_stdout(io.StringIO()):
+                            got_tx = reparse(acc.serialize()).final_tx().serialize()
+                    except Exception as e:  # noqa
+                        return (f"{kind} {m}-of-{n}, signers {sub}: the finalised PSBT combined with {order}: "
+                                f"final_tx() fails ({type(e).__name__}: {str(e)[:80]})")
+                    if got_tx != final:
+                        return (f"{kind} {m}-of-{n}, signers {sub}: the finalised PSBT combined with {order} extracts "
+                                f"ANOTHER final transaction")
+                if fin_obj.serialize() != fb:
+                    return f"{kind} {m}-of-{n}: combine modified the finalised PSBT that was passed as its argument"
     return None
 
 
